@@ -436,6 +436,98 @@ pub fn run(tier: &str, seed: u64, out: &str) {
         parts.push(J::obj().set("space", sp.name).set("description", sp.description).set("states", states.len()).set("with_mate_in_one", a).set("with_mixed_moves", d));
     }
 
+    // ---- retrograde classes: every mating move type, with and without a distractor
+    if !rep.saturated() && rep.elapsed() <= wall_cap {
+        use crate::props::c08retro::{generate, RetroOptions};
+        use Kind::*;
+        let region: Vec<u8> = vec![56, 57, 58, 59];
+        let cap_q = [None, Some(Q)];
+        let cap_all = [None, Some(Q), Some(R), Some(B), Some(N), Some(P)];
+        // (white men besides the king in the mated position, keep promotions to Q/R, defensive half)
+        let quick_sets: Vec<(Vec<Kind>, bool, bool)> = vec![
+            (vec![P, Q], false, true),
+            (vec![P, R], false, false),
+            (vec![P, N], true, true),
+            (vec![P, B], true, false),
+            (vec![P, P], true, true),
+            (vec![N, N], true, true),
+            (vec![B, N], true, false),
+        ];
+        let thorough_sets: Vec<(Vec<Kind>, bool, bool)> = vec![
+            (vec![P, Q], true, true),
+            (vec![P, R], true, true),
+            (vec![P, N], true, true),
+            (vec![P, B], true, true),
+            (vec![P, P], true, true),
+            (vec![N, N], true, true),
+            (vec![B, N], true, true),
+            (vec![B, B], true, true),
+            (vec![R, N], true, true),
+            (vec![R, B], true, true),
+            (vec![Q, N], true, true),
+            (vec![Q, R], true, true),
+            (vec![R, R], true, true),
+            (vec![Q], true, true),
+            (vec![R], true, true),
+        ];
+        for (mat, promos, defence) in if thorough { &thorough_sets } else { &quick_sets } {
+            if rep.saturated() {
+                break;
+            }
+            if rep.elapsed() > wall_cap {
+                rep.cap(format!("wall cap {} s reached before retrograde class {:?}", wall_cap, mat));
+                break;
+            }
+            let o = RetroOptions {
+                material: mat,
+                region: &region,
+                captured: if thorough { &cap_all } else { &cap_q },
+                keep_plain_heavy_moves: false,
+                keep_heavy_promotions: *promos,
+                distractors: if thorough { &[Q, R, N] } else { &[Q] },
+                defence: *defence,
+                defence_from_distracted: false,
+            };
+            let cls = generate(&o);
+            // both colours: the class and its colour mirror
+            let mut states: Vec<Pos> = Vec::new();
+            for p in cls.attack.iter().chain(cls.defence.iter()) {
+                states.push(p.mirror());
+                states.push(p.clone());
+            }
+            let cases: Vec<Case> = par_map(&states, analyse).into_iter().filter(|c| c.attack_case() || c.defence_case()).collect();
+            let a = cases.iter().filter(|c| c.attack_case()).count();
+            let d = cases.iter().filter(|c| c.defence_case()).count();
+            tot.states.fetch_add(states.len() as u64, Ordering::Relaxed);
+            tot.attack.fetch_add(a as u64, Ordering::Relaxed);
+            tot.defence.fetch_add(d as u64, Ordering::Relaxed);
+            run_cases(&rep, &cases, &tot, &mut samples, if thorough { 3 } else { 2 });
+            eprintln!("[C08] retrograde K+{:?} v k: {} mates, {} predecessors by type {:?}, {} with a distractor, {} black predecessors; {} states, {} with a mate in one, {} with mixed moves ({:.1}s)", mat, cls.stats.mates, cls.stats.predecessors, cls.stats.by_move_type, cls.stats.with_distractor, cls.stats.defence_positions, states.len(), a, d, rep.elapsed());
+            let mut types = J::obj();
+            for (k, v) in &cls.stats.by_move_type {
+                types.put(k, *v);
+            }
+            parts.push(
+                J::obj()
+                    .set("space", format!("retrograde: K+{:?} v k", mat))
+                    .set("description", "every checkmate with the mated king on a8..d8 and this white material; the mating move un-made in every way the rules allow (see mating_move_types), captured piece in the listed kinds; each predecessor also with one black distractor on every square where white can capture it instead of mating; defensive half: one more black non-capturing move un-made; both colours (mirror)")
+                    .set("captured_kinds", if thorough { "none, q, r, b, n, p" } else { "none, q" })
+                    .set("distractor_kinds", if thorough { "q, r, n" } else { "q" })
+                    .set("plain_queen_and_rook_moves", "left to the forward classes")
+                    .set("plain_promotions_to_queen_or_rook", *promos)
+                    .set("checkmates", cls.stats.mates)
+                    .set("predecessors", cls.stats.predecessors)
+                    .set("mating_move_types", types)
+                    .set("with_distractor", cls.stats.with_distractor)
+                    .set("black_predecessors", cls.stats.defence_positions)
+                    .set("states", states.len())
+                    .set("with_mate_in_one", a)
+                    .set("with_mixed_moves", d)
+                    .set("attack_depths", if thorough { "1..3" } else { "1..2" }),
+            );
+        }
+    }
+
     let searches = tot.searches.load(Ordering::Relaxed);
     let cov = J::obj()
         .set("states", tot.states.load(Ordering::Relaxed))
